@@ -55,13 +55,14 @@ def _pick(v, lo, hi):
 
 def h_write_append_options(ic: int, ist: int, rgo: int, req: int, have: int, part: bool, same_part: bool) -> bool:
     """
-    pre: 0 <= ic <= 3 and 0 <= ist <= 3 and 1 <= rgo <= 1 << 40 and 0 <= req <= 2 and 0 <= have <= 2
+    pre: 0 <= ic <= 3 and 0 <= ist <= 3 and 1 <= rgo <= 1 << 40 and 0 <= req <= 1 and 0 <= have <= 1
     post: __return__
     """
+    # (simple and hive datasets; drill appends are h_append_scheme's subject)
     # write(..., append=True) on an existing dataset: scheme / partition mismatches are refused before anything is
     # written; otherwise ParquetFile.write_row_groups receives the caller's row_group_offsets, compression, stats,
     # open_with and mkdirs under those names, with part renaming off and the summary rewritten
-    ic, ist, req, have = _pick(ic, 0, 3), _pick(ist, 0, 3), _pick(req, 0, 2), _pick(have, 0, 2)
+    ic, ist, req, have = _pick(ic, 0, 3), _pick(ist, 0, 3), _pick(req, 0, 1), _pick(have, 0, 1)
     comp, stats, scheme, existing = COMP[ic], STATS[ist], SCHEMES[req], ["simple", "hive", "drill"][have]
     cats = {"k": [1]} if part else {}
     partition_on = (["k"] if part else []) if same_part else ["other"]
@@ -89,8 +90,8 @@ def h_write_append_options(ic: int, ist: int, rgo: int, req: int, have: int, par
         return False
     a = calls[0][1]
     return (a["row_group_offsets"] == rgo and a["compression"] is comp and a["stats"] is stats and
-            a["open_with"] is ow and a["mkdirs"] is mk and a["sort_pnames"] is False and a["sort_key"] is None and
-            a["write_fmd"] is True)
+            a["open_with"] is ow and a["mkdirs"] is mk and not a["sort_pnames"] and a["sort_key"] is None and
+            bool(a["write_fmd"]))
 
 
 def replay_h_write_append_options(ic, ist, rgo, req, have, part, same_part):
